@@ -50,26 +50,58 @@ func (e *Env) emissionsOf(l *facts.Level, lf *ir.Leaf) (list []emission, builder
 	case isCallOf(r, "(*strings.Builder).String"):
 		builder = true
 		bobj := r.Args[0].Key()
+		var stream []*ir.Term
 		for _, ef := range lf.Effects {
-			if ef.Kind != "call" {
+			if ef.Kind != "call" || ef.Val.Op != ir.OCall || len(ef.Val.Args) == 0 {
 				continue
 			}
-			if isCallOf(ef.Val, "(*strings.Builder).WriteString") && len(ef.Val.Args) == 2 {
-				if ef.Val.Args[0].Key() != bobj {
+			onBuilder := ef.Val.Args[0].Key() == bobj
+			switch {
+			case isCallOf(ef.Val, "(*strings.Builder).WriteString") && len(ef.Val.Args) == 2:
+				if !onBuilder {
 					return nil, true, fmt.Errorf("WriteString on a different builder")
 				}
-				pieces = append(pieces, ef.Val.Args[1])
-			}
-			// fmt.Fprintf(&builder, format, args...) writes the same text as WriteString(fmt.Sprintf(format, args...))
-			if isCallOf(ef.Val, "fmt.Fprintf") && len(ef.Val.Args) == 3 && ef.Val.Args[0].Key() == bobj {
+				stream = append(stream, ef.Val.Args[1])
+			case (isCallOf(ef.Val, "(*strings.Builder).WriteByte") || isCallOf(ef.Val, "(*strings.Builder).WriteRune")) && len(ef.Val.Args) == 2 && onBuilder:
+				ch := ef.Val.Args[1]
+				if ch.Op == ir.OConv && len(ch.Args) == 1 {
+					ch = ch.Args[0]
+				}
+				v, ok := int64Const(ch)
+				if !ok || v < 0 || v > 0x10FFFF {
+					return nil, true, fmt.Errorf("a non-constant character is written to the text")
+				}
+				stream = append(stream, ir.Const(constant.MakeString(string(rune(v))), types.Typ[types.String]))
+			case isCallOf(ef.Val, "fmt.Fprintf") && len(ef.Val.Args) == 3 && onBuilder:
+				// fmt.Fprintf(&builder, format, args...) writes the same text as WriteString(fmt.Sprintf(format, args...))
 				sp := e.externFunc(l.Pkg.Types, "fmt", "Sprintf")
 				if sp == nil {
+					// the package need not import Sprintf by that name: any *types.Func of fmt.Sprintf will do
 					return nil, true, fmt.Errorf("fmt.Sprintf not resolvable")
 				}
 				t := ir.Call(sp, ef.Val.Args[1], ef.Val.Args[2])
 				t.Pos = ef.Val.Pos
-				pieces = append(pieces, t)
+				stream = append(stream, t)
+			case (isCallOf(ef.Val, "(*strings.Builder).Grow") || isCallOf(ef.Val, "(*strings.Builder).Len")) && onBuilder:
+				// capacity only
+			case onBuilder && strings.HasPrefix(calleeName(ef.Val), "(*strings.Builder)."):
+				if !isCallOf(ef.Val, "(*strings.Builder).String") {
+					return nil, true, fmt.Errorf("unexpected operation on the builder: %s", clip(ef.Val.Pretty()))
+				}
 			}
+		}
+		var err error
+		pieces, err = groupStream(stream)
+		if err != nil {
+			return nil, true, err
+		}
+	case r.Op == "concat":
+		// one concatenation: lower-level text + "/NAME:" + value.String() + ...
+		builder = true
+		var err error
+		pieces, err = groupStream(r.Args)
+		if err != nil {
+			return nil, true, err
 		}
 	case r.Op == ir.OConst && r.C != nil && r.C.Kind() == constant.String:
 		return nil, false, nil // constant text (error paths)
@@ -365,4 +397,49 @@ func isStringMethod(t *ir.Term) bool {
 	}
 	sig := fn.Type().(*types.Signature)
 	return sig.Recv() != nil && sig.Params().Len() == 0 && sig.Results().Len() == 1 && types.Identical(sig.Results().At(0).Type(), types.Typ[types.String])
+}
+
+func calleeName(t *ir.Term) string {
+	if fn, _ := t.Obj.(*types.Func); fn != nil {
+		return fn.FullName()
+	}
+	return ""
+}
+
+// groupStream turns the sequence of strings written to the text into emissions: a piece that is already one
+// (Sprintf(...), the lower level's text) stays; a constant "...NAME:" followed by a value's String() becomes the
+// concatenation of the two; nested concatenations are flattened and adjacent constants joined first.
+func groupStream(stream []*ir.Term) ([]*ir.Term, error) {
+	var flat []*ir.Term
+	for _, t := range stream {
+		if t.Op == "concat" {
+			flat = append(flat, t.Args...)
+		} else {
+			flat = append(flat, t)
+		}
+	}
+	var merged []*ir.Term
+	for _, t := range flat {
+		if n := len(merged); n > 0 && isStrConstTerm(merged[n-1]) && isStrConstTerm(t) {
+			merged[n-1] = ir.Const(constant.MakeString(constant.StringVal(merged[n-1].C)+constant.StringVal(t.C)), types.Typ[types.String])
+			continue
+		}
+		merged = append(merged, t)
+	}
+	var out []*ir.Term
+	for i := 0; i < len(merged); i++ {
+		t := merged[i]
+		if isStrConstTerm(t) {
+			if i+1 < len(merged) && merged[i+1].Op == ir.OCall && isStringMethod(merged[i+1]) {
+				p := ir.Concat(t, merged[i+1])
+				p.Pos = merged[i+1].Pos
+				out = append(out, p)
+				i++
+				continue
+			}
+			return nil, fmt.Errorf("constant text %s is written that is not the name part of an emission", t.Pretty())
+		}
+		out = append(out, t)
+	}
+	return out, nil
 }
